@@ -1,1 +1,4 @@
-import Iota.Model.B1T6
+-- Root of the `Iota` library: every property, tie and driver module.
+import Iota.Driver.All
+import Iota.Tie.C14
+import Iota.Props.C14
